@@ -39,7 +39,8 @@ IMPURE_METHODS = {"uniform", "choice", "permutation", "integers", "normal", "ran
                   "multivariate_normal", "laplace", "exponential", "permuted", "rand", "randn", "randint", "random_sample",
                   "pop", "popitem"}
 MUTATORS = {"append", "extend", "insert", "pop", "remove", "clear", "sort", "reverse", "add", "discard", "update",
-            "fill", "setdefault", "popitem", "shuffle", "__delitem__", "difference_update", "intersection_update", "symmetric_difference_update"}
+            "fill", "setdefault", "popitem", "shuffle", "__delitem__", "difference_update", "intersection_update", "symmetric_difference_update",
+            "popleft", "appendleft", "extendleft", "rotate"}
 
 
 ARITH_UFUNCS = {"numpy.multiply": ast.Mult, "numpy.add": ast.Add, "numpy.subtract": ast.Sub, "numpy.matmul": ast.MatMult, "numpy.divide": ast.Div, "numpy.true_divide": ast.Div}
@@ -266,9 +267,11 @@ class Sym(Interp):
                 any(isinstance(x, tuple) and x and x[0] in ("tuple", "list") for x in (b[2], b[3])):
             # (x if c else (y, 0))[k]: the index goes into both alternatives - a display is taken apart, an opaque value indexed
             return self.mkphi(b[1], T(self.h_subscript(b[2], idx, n, env, ctx)), T(self.h_subscript(b[3], idx, n, env, ctx)))
-        if b[0] == "elem" and isinstance(b[1], tuple) and len(b[1]) == 4 and b[1][0] == "ext" and b[1][1] == "zip" and not b[1][3] and is_const(T(idx)) and \
+        if b[0] == "elem" and isinstance(b[1], tuple) and len(b[1]) == 4 and b[1][0] == "ext" and b[1][1] in ("zip", "itertools.product") and not b[1][3] and is_const(T(idx)) and \
                 isinstance(T(idx)[1], int) and not isinstance(T(idx)[1], bool) and 0 <= T(idx)[1] < len(b[1][2]):
-            return ("elem", b[1][2][T(idx)[1]])          # component k of the current tuple of zip(a, b, ...) is the current element of its k-th argument
+            # component k of the current tuple of zip(a, b, ...) / itertools.product(a, b, ...) is the current element of its k-th argument; whether the
+            # arguments advance together or in all combinations is recorded in the loop's `iter`, where the rules that care look for it
+            return ("elem", b[1][2][T(idx)[1]])
         if b[0] == "cmp" and len(b) == 4 and b[1] in ("==", "!=", "<", "<=", ">", ">=") and (is_const(b[3]) or is_const(b[2])) and \
                 isinstance((b[3] if is_const(b[3]) else b[2])[1], (int, float)):
             # (A != 0)[:, i] is A[:, i] != 0: indexing an elementwise comparison with a scalar = comparing the indexed array
